@@ -27,9 +27,15 @@ TGenesis ==
 TAcct == Step(Ev.op = "acct" /\ Chk("FreshAccountHoldsNothing", Ev.w = 0 /\ Ev.u = 0 /\ Ev.a = Len(bal) + 1) /\ NewAccount(Ev.a))
 
 (* consensus rewards of a proof-of-work block (Yellow Paper 11.3, EIP-649, EIP-1234), in units of *)
-(* 1/32 ether: 5, 3, 2 ether; nothing after the merge (EIP-3675)                                   *)
+(* 1/32 ether: block reward R = 5, 3, 2 ether; an uncle at distance k (1..6) earns (8-k)/8 R, the *)
+(* block's miner earns R plus R/32 per included uncle; nothing after the merge (EIP-3675)         *)
 BlockRewardUnits(f) == IF f < 4 THEN 160 ELSE IF f < 5 THEN 96 ELSE 64
-ExpectedRewards(f, coinbase, pow) == IF pow THEN << [a |-> coinbase, units |-> BlockRewardUnits(f)] >> ELSE << >>
+UncleRewards(f, uncles) == [i \in 1..Len(uncles) |->
+                             [a |-> uncles[i].a, units |-> ((8 - uncles[i].dist) * BlockRewardUnits(f)) \div 8]]
+ExpectedRewards(f, coinbase, pow, uncles) ==
+  IF pow THEN UncleRewards(f, uncles) \o
+              << [a |-> coinbase, units |-> BlockRewardUnits(f) + Len(uncles) * (BlockRewardUnits(f) \div 32)] >>
+         ELSE << >>
 
 (* blob fee of a transaction: blobs * GAS_PER_BLOB (2^17) * blob base fee (EIP-4844) *)
 BlobFee(n) == n * 131072 * blk.blobbasefee
@@ -40,7 +46,7 @@ TBlock ==
        /\ ~InBlk /\ ~InTx
        /\ fork' = Ev.fork
        /\ blk' = [basefee |-> Ev.basefee, blobbasefee |-> Ev.blobbasefee, coinbase |-> Ev.coinbase, wd |-> Ev.wd,
-                  rw |-> ExpectedRewards(Ev.fork, Ev.coinbase, Ev.pow)]
+                  rw |-> ExpectedRewards(Ev.fork, Ev.coinbase, Ev.pow, Ev.uncles)]
        /\ UNCHANGED <<bal, balu, burned, minted, mintedu, total0, tx, frames, float, escrow, sd, created>>)
 
 TBlockEnd ==
@@ -91,8 +97,8 @@ TChange ==
             [] Ev.r = "Withdrawal" -> /\ WeiOnly
                                       /\ Chk("WithdrawalAsListed", InBlk /\ ~InTx /\ Len(blk.wd) > 0 /\ blk.wd[1] = [a |-> Ev.a, amt |-> Delta])
                                       /\ Withdrawal(Ev.a, Delta)
-            [] Ev.r = "Reward"     -> /\ Chk("RewardAsSpecified", InBlk /\ ~InTx /\ Ev.nw = Ev.pw /\ Len(blk.rw) > 0
-                                                                   /\ blk.rw[1] = [a |-> Ev.a, units |-> Ev.nu - Ev.pu])
+            [] Ev.r = "Reward"     -> /\ Chk("RewardAsSpecified", InBlk /\ ~InTx /\ Ev.nw = Ev.pw /\ Ev.nu > Ev.pu
+                                                                   /\ RewardListed(Ev.a, Ev.nu - Ev.pu))
                                       /\ Reward(Ev.a, Ev.nu - Ev.pu)
             [] OTHER               -> Chk("UnknownReason", FALSE) /\ UNCHANGED lvars)
 
